@@ -740,30 +740,40 @@ theorem stackDs_spec {α : Type} [Inhabited α] (nan : α) (d0 : Ds α) (rest : 
 
 /-- CONCATENATE_DS.  When `concatenate_ds(datasets, axis)` succeeds on a non-empty list of Datasets (the first with
 distinct keys and variables with distinct dimension names):
+* `axis` resolves, ON THE FIRST DATASET, to a dimension name `name` (`datasets[0].axes[axis].name`, the mirror
+  `dsAxisName`: a name is itself, an integer - negative ones from the end - is a position in the first Dataset's
+  dimensions), and `name` is a dimension of the first Dataset;
 * every Dataset holds the keys of the first one; the result holds them in the first one's order, no metadata;
-* variable `k` of the result is `concatenate([ds[k] for ds in datasets], axis)` - the C12 mirror `Lib.concatenate`
-  (align=False); it lists the dimensions of the first Dataset's variable `k`.  In particular EVERY variable must
-  have the dimension: a variable that lacks it makes `concatenate` raise (`concatenateDs_lacking`), and an integer
-  `axis` is a position in each variable, not in the Dataset;
+* variable `k` of the result is `concatenate([ds[k] for ds in datasets], axis=name)` - the C12 mirror
+  `Lib.concatenate` (align=False), BY NAME whatever the position of the dimension in the variable; it lists the
+  dimensions of the first Dataset's variable `k`.  In particular EVERY variable must have the dimension: a variable
+  that lacks it makes `concatenate` raise (`concatenateDs_lacking`);
 * the result has shared, own axes, every axis object coming from one of the concatenated variables. -/
 theorem concatenateDs_spec {α : Type} (nan : α) (d0 : Ds α) (rest : List (Ds α)) (axis : DimKey) (out : Ds α)
     (hk : d0.keys.Nodup) (hnd : ∀ kv ∈ d0.vars, kv.2.dims.Nodup)
     (h : concatenateDs nan (d0 :: rest) axis = .ok out) :
+    ∃ name, dsAxisName d0 axis = .ok name ∧ name ∈ d0.dims ∧
     (∀ ds ∈ d0 :: rest, ds.keys.Perm d0.keys) ∧
     out.keys = d0.keys ∧ out.attrs = [] ∧ SharedAxes out ∧ OwnAxes out ∧
     (∀ k v0, (k, v0) ∈ d0.vars → ∃ arrays s r, gather (d0 :: rest) k = .ok arrays ∧
       Rel2 (fun ds a => (k, a) ∈ ds.vars) (d0 :: rest) arrays ∧
-      concatenate nan arrays axis false false = .ok s ∧ (k, r) ∈ out.vars ∧ SameVar r s ∧ s.dims = v0.dims) ∧
+      concatenate nan arrays (.name name) false false = .ok s ∧ (k, r) ∈ out.vars ∧ SameVar r s ∧ s.dims = v0.dims) ∧
     (∀ e ∈ out.axes, ∃ k ∈ d0.keys, ∃ arrays s, gather (d0 :: rest) k = .ok arrays ∧
-      concatenate nan arrays axis false false = .ok s ∧ e ∈ s.axes) := by
+      concatenate nan arrays (.name name) false false = .ok s ∧ e ∈ s.axes) := by
   rw [concatenateDs_eq] at h
   cases hvars : (d0 :: rest).foldlM catChk none with
   | error e => rw [hvars] at h; cases h
   | ok variables =>
     rw [hvars] at h
     obtain ⟨rfl, hchk⟩ := catChk_spec d0 rest variables hvars
+    replace h : (dsAxisName d0 axis >>= fun name => d0.keys.foldlM
+        (joinStep (fun arrays => concatenate nan arrays (.name name) false false) (d0 :: rest)) {}) = .ok out := h
+    cases hname : dsAxisName d0 axis with
+    | error e => rw [hname] at h; cases h
+    | ok name =>
+    rw [hname] at h
     replace h : d0.keys.foldlM
-        (joinStep (fun arrays => concatenate nan arrays axis false false) (d0 :: rest)) {} = .ok out := h
+        (joinStep (fun arrays => concatenate nan arrays (.name name) false false) (d0 :: rest)) {} = .ok out := h
     -- the first gathered variable is the first Dataset's
     have hhead : ∀ k arrays, gather (d0 :: rest) k = .ok arrays → ∃ a0 t, arrays = a0 :: t ∧ (k, a0) ∈ d0.vars := by
       intro k arrays hg
@@ -771,15 +781,15 @@ theorem concatenateDs_spec {α : Type} (nan : α) (d0 : Ds α) (rest : List (Ds 
       cases this with
       | cons h1 _ => exact ⟨_, _, rfl, h1⟩
     have hdims : ∀ k arrays s, gather (d0 :: rest) k = .ok arrays →
-        concatenate nan arrays axis false false = .ok s → ∃ a0, (k, a0) ∈ d0.vars ∧ s.dims = a0.dims := by
+        concatenate nan arrays (.name name) false false = .ok s → ∃ a0, (k, a0) ∈ d0.vars ∧ s.dims = a0.dims := by
       intro k arrays s hg hs
       obtain ⟨a0, t, rfl, h0⟩ := hhead k arrays hg
-      exact ⟨a0, h0, concatenate_dims nan a0 t axis s hs⟩
+      exact ⟨a0, h0, concatenate_dims nan a0 t (.name name) s hs⟩
     obtain ⟨h1, h2, h3, h4, h5, h6⟩ := joinLoop_core _ (d0 :: rest) d0.keys out hk
       (fun v _ arrays r hg hs => by
         obtain ⟨a0, h0, hd⟩ := hdims v arrays r hg hs
         rw [hd]; exact hnd _ h0) h
-    refine ⟨hchk, h1, h2, h3, h4, ?_, h6⟩
+    refine ⟨name, rfl, dsAxisName_mem d0 axis name hname, hchk, h1, h2, h3, h4, ?_, h6⟩
     intro k v0 hkv0
     obtain ⟨arrays, s, r, hg, hs, hr, hsame⟩ := h5 k (List.mem_map_of_mem (f := (·.1)) hkv0)
     obtain ⟨a0, h0, hd⟩ := hdims k arrays s hg hs
@@ -787,22 +797,47 @@ theorem concatenateDs_spec {α : Type} (nan : α) (d0 : Ds α) (rest : List (Ds 
     subst this
     exact ⟨arrays, s, r, hg, gather_rel _ _ _ hg, hs, hr, hsame, hd⟩
 
-/-- VARIABLES LACKING THE DIMENSION: `concatenate_ds` along a dimension (given by name) that some variable of the
-first Dataset does not have never succeeds - the per-variable `concatenate` raises (the docstring's "will raise an
-error if variables are there which do not contain the required dimension") -/
-theorem concatenateDs_lacking {α : Type} (nan : α) (d0 : Ds α) (rest : List (Ds α)) (name : String)
+/-- AN INTEGER AXIS IS A POSITION IN THE (FIRST) DATASET: `concatenate_ds(datasets, axis)` is
+`concatenate_ds(datasets, axis=datasets[0].dims[axis])` - whatever position the dimension has in each variable -/
+theorem concatenateDs_key_eq_name {α : Type} (nan : α) (d0 : Ds α) (rest : List (Ds α)) (axis : DimKey)
+    (name : String) (hname : dsAxisName d0 axis = .ok name) :
+    concatenateDs nan (d0 :: rest) axis = concatenateDs nan (d0 :: rest) (.name name) := by
+  rw [concatenateDs_eq, concatenateDs_eq]
+  show (_ >>= fun variables => dsAxisName d0 axis >>= _) = (_ >>= fun variables => dsAxisName d0 (.name name) >>= _)
+  rw [hname, dsAxisName_name d0 name (dsAxisName_mem d0 axis name hname)]
+
+/-- VARIABLES LACKING THE DIMENSION, any spelling of the axis: `concatenate_ds` along a dimension (a name, or a
+position in the first Dataset) that some variable of the first Dataset does not have never succeeds - the
+per-variable `concatenate` raises (the docstring's "will raise an error if variables are there which do not contain
+the required dimension") -/
+theorem concatenateDs_lacking_key {α : Type} (nan : α) (d0 : Ds α) (rest : List (Ds α)) (axis : DimKey)
+    (name : String) (hname : dsAxisName d0 axis = .ok name)
     (hk : d0.keys.Nodup) (hnd : ∀ kv ∈ d0.vars, kv.2.dims.Nodup) (k : String) (v0 : DimArray α)
     (hkv : (k, v0) ∈ d0.vars) (hlack : name ∉ v0.dims) :
-    ¬ ∃ out, concatenateDs nan (d0 :: rest) (.name name) = .ok out := by
+    ¬ ∃ out, concatenateDs nan (d0 :: rest) axis = .ok out := by
   rintro ⟨out, h⟩
-  obtain ⟨_, _, _, _, _, hv, _⟩ := concatenateDs_spec nan d0 rest (.name name) out hk hnd h
+  obtain ⟨name', hname', _, _, _, _, _, _, hv, _⟩ := concatenateDs_spec nan d0 rest axis out hk hnd h
+  have : name' = name := Except.ok.inj (hname'.symm.trans hname)
+  subst this
   obtain ⟨arrays, s, r, _, hrel, hs, _⟩ := hv k v0 hkv
   cases hrel with
   | cons h1 _ =>
     have := value_unique hk h1 hkv
     subst this
-    rw [concatenate_name_missing nan _ _ name hlack] at hs
+    rw [concatenate_name_missing nan _ _ name' hlack] at hs
     cases hs
+
+/-- VARIABLES LACKING THE DIMENSION: `concatenate_ds` along a dimension (given by name) that some variable of the
+first Dataset does not have never succeeds -/
+theorem concatenateDs_lacking {α : Type} (nan : α) (d0 : Ds α) (rest : List (Ds α)) (name : String)
+    (hk : d0.keys.Nodup) (hnd : ∀ kv ∈ d0.vars, kv.2.dims.Nodup) (k : String) (v0 : DimArray α)
+    (hkv : (k, v0) ∈ d0.vars) (hlack : name ∉ v0.dims) :
+    ¬ ∃ out, concatenateDs nan (d0 :: rest) (.name name) = .ok out := by
+  rintro ⟨out, h⟩
+  obtain ⟨name', hname', _⟩ := concatenateDs_spec nan d0 rest (.name name) out hk hnd h
+  have : name' = name := dsAxisName_name_inv d0 name name' hname'
+  subst this
+  exact concatenateDs_lacking_key nan d0 rest (.name name') name' hname' hk hnd k v0 hkv hlack ⟨out, h⟩
 
 /-! #### copy -/
 
@@ -988,7 +1023,9 @@ example : (∃ out, concatenateDs 0 [exDs, exDs4] (.name "y") = .ok out ∧ out.
   have hnd : ∀ kv ∈ exDs.vars, kv.2.dims.Nodup := fun kv hkv => (exDs_good.2.2.2 kv hkv).1
   constructor
   · obtain ⟨out, hout⟩ := okKeys_some (r := concatenateDs 0 [exDs, exDs4] (.name "y")) (ks := ["a", "b"]) (by decide)
-    obtain ⟨_, h1, _, h3, _, h5, _⟩ := concatenateDs_spec 0 exDs [exDs4] (.name "y") out (by decide) hnd hout
+    obtain ⟨name, hname, _, _, h1, _, h3, _, h5, _⟩ := concatenateDs_spec 0 exDs [exDs4] (.name "y") out (by decide) hnd hout
+    have hn : name = "y" := dsAxisName_name_inv exDs "y" name hname
+    subst hn
     obtain ⟨arrays, s, r, hg, _, hs, hr, hsame, _⟩ := h5 "b" exB (by simp [exDs])
     have : gather [exDs, exDs4] "b" = .ok [exB, exB3] := rfl
     rw [this] at hg
